@@ -142,10 +142,14 @@ func cmdCheck(args []string) {
 	if v, err := strconv.Atoi(os.Getenv("RTV_TIMEOUT")); err == nil && v > 0 {
 		timeout = v
 	}
-	evPath := filepath.Join(vdir, "evidence", *prop+".json")
+	outDir := vdir
+	if d := os.Getenv("RTV_OUT_DIR"); d != "" {
+		outDir = d
+	}
+	evPath := filepath.Join(outDir, "evidence", *prop+".json")
 	os.MkdirAll(filepath.Dir(evPath), 0755)
 	os.Remove(evPath)
-	replayDir := filepath.Join(vdir, "replays")
+	replayDir := filepath.Join(outDir, "replays")
 	os.MkdirAll(replayDir, 0755)
 
 	p, err := loadProgram(*repo)
